@@ -72,6 +72,8 @@ struct Shared {
     occ_m1: AtomicUsize,
     occ_rw: AtomicUsize,
     excl_bad: AtomicUsize,
+    /// the granter withheld a grant until the target had ended, and the target never ended
+    withheld_gave_up: AtomicBool,
 }
 
 struct Occ<'a>(&'a AtomicUsize);
@@ -138,6 +140,7 @@ pub fn run(case: &Case) -> Outcome {
         occ_m1: AtomicUsize::new(0),
         occ_rw: AtomicUsize::new(0),
         excl_bad: AtomicUsize::new(0),
+        withheld_gave_up: AtomicBool::new(false),
     });
     let ledger = Ledger::new(n_vals.max(1));
     let log = Log::new();
@@ -276,6 +279,11 @@ pub fn run(case: &Case) -> Outcome {
                         let delay = gops.get(i).map(|o| o.1 as u64).unwrap_or(0);
                         if delay > 0 {
                             sleep_ns(delay);
+                        }
+                        // a withheld grant is only issued once the target has ended: the cancel
+                        // alone has to get the target out of this (or an earlier) operation
+                        if gops.get(i).is_some_and(|o| o.2 == 1) && !poll_until(|| states.reached(0, usize::MAX - 1), 20_000_000_000) {
+                            sh.withheld_gave_up.store(true, Ordering::SeqCst);
                         }
                         states.enter(ai, i, G);
                         let c = log.call(ai, i, G);
@@ -439,6 +447,9 @@ pub fn run(case: &Case) -> Outcome {
     // of non-zero length) and that began after cancel() had returned must not complete. (for the
     // event driven operations nobody can tell from outside whether they had to block: the event
     // may have arrived between the call and its first look at the primitive)
+    if sh.withheld_gave_up.load(Ordering::SeqCst) {
+        out.fail("cancel-did-not-end-blocked-target", "20 virtual s after the cancel the target was still blocked in an operation whose grant was withheld".into());
+    }
     let cd = cancel_done.load(Ordering::SeqCst);
     if cd != u64::MAX {
         for o in &t_obs {
@@ -525,7 +536,12 @@ pub fn strategy(g: &GenCfg) -> BoxedStrategy<Case> {
         .prop_map(|((ks, args, hold, nvals, gctx, bys, delays), canc, (workers, pool, feat), sched)| {
             let mut actors = vec![];
             let tops: Vec<Op> = ks.iter().zip(args.iter()).map(|(k, a)| Op(*k, if matches!(*k, T_SLEEP | T_JOIN) { *a } else { 0 }, 0)).collect();
-            let gops: Vec<Op> = (0..tops.len()).map(|i| Op(G, delays[i % delays.len()], 0)).collect();
+            let mut gops: Vec<Op> = (0..tops.len()).map(|i| Op(G, delays[i % delays.len()], 0)).collect();
+            // one case in three: one grant is withheld until the target has ended
+            if delays[3] % 3 == 0 {
+                let j = delays[2] as usize % gops.len();
+                gops[j].2 = 1;
+            }
             actors.push(Actor { ctx: CO, role: 0, ops: tops });
             actors.push(Actor { ctx: gctx, role: 1, ops: gops });
             for (k, ctx) in bys {
